@@ -58,12 +58,13 @@ def check_model(model, sigbase, case, acc=None, cfg_nondefault=False, key=None):
         seen.add(check)
         import re
 
-        m = re.search(r"op_type:\s*(\w+)|OpType:\s*(\w+)|No Op registered for (\w+)|node #\d+ (\w+)", text)
+        m = re.search(r"op_type:\s*(\w+)|OpType:\s*(\w+)|No Op registered for (\w+)|node #\d+ (\w+)|of operator \((\w+)\)|Optype \((\w+)\)|\(node_([A-Za-z]+)_\d+\)", text)
         op = next((g for g in (m.groups() if m else []) if g), "?")
         low = text.lower()
         cause = ("mixed_float_double" if ("tensor(float) and tensor(double)" in low or "inconsistent type tensor(double)" in low or "inconsistent type tensor(float)" in low)
                  else "elem_type_differs" if "elem type differs" in low or "inferred elem type" in low
-                 else "no_op_registered" if "no op registered" in low else "other")
+                 else "no_op_registered" if "no op registered" in low
+                 else "type_not_supported_by_operator" if ("has unsupported type" in low or ("of operator" in low and "is invalid" in low)) else "other")
         sig = {k: v for k, v in dict(sigbase, check=check, op=op, cause=cause).items() if k != "config"}
         out.append({"sig": sig, "case": case, "detail": (f"[config {sigbase['config']}] " if "config" in sigbase else "") + text})
     return out
